@@ -175,6 +175,16 @@ def run(ck, F, tier):
     # a decoded picture has width >= 1 and height >= 1: into_width_and_height gives no size to a custom format with a zero dimension (C06's rule S, re-run here)
     from . import c06_state
     c06_state.rule_s(Scoped(ck, 'C06.'), F)
+    # "every successfully decoded picture EXPOSES planes": after a successful call get_last_picture() returns the picture just decoded - the accessor reads the
+    # store under last_picture (C04 R1), last_picture := this picture's key and the picture is inserted under it (R2), and the clean-up that prunes the store
+    # runs after those updates (R7)
+    from . import c04
+    s04 = Scoped(ck, 'C04.')
+    c04.r1_accessors(s04, F)
+    try:
+        c04.r2_updates(s04, F)
+    except Unanalysable as e:
+        ck.unanalysable('C04.R2 final section', str(e))
     ck.rule('S', 'Picture.quantizer is a 5-bit field (0..31) at both construction sites, so QUANT_TO_STRENGTH[quantizer] is in range')
     name = 'h263_rs::parser::picture::decode_picture::{closure#0}'
     Tp = Table(F, name)
